@@ -37,15 +37,15 @@ type zzC03bIssued struct {
 
 type zzC03bWorld struct {
 	*zzMgrWorld
-	scope    KeyScope
-	accts    []*zzAcct
-	issued   []*zzC03bIssued
-	pass     []byte
-	impKey   ManagedPubKeyAddress
-	impPriv  []byte
-	impScr   ManagedScriptAddress
-	impScrB  []byte
-	created  int
+	scope   KeyScope
+	accts   []*zzAcct
+	issued  []*zzC03bIssued
+	pass    []byte
+	impKey  ManagedPubKeyAddress
+	impPriv []byte
+	impScr  ManagedScriptAddress
+	impScrB []byte
+	created int
 }
 
 func (w *zzC03bWorld) sm() *ScopedKeyManager {
@@ -462,8 +462,8 @@ func zzC03b(scope KeyScope, steps, nOps int, imported bool, schema *ScopeAddrSch
 
 // entries: ops 0..9 = next-ext, next-int, extend-int, lock, unlock, restart,
 // change-passphrase, new-account, import, derive
-func ZzC03AcctsL2() { zzC03b(KeyScopeBIP0084, 2, 10, false, nil) }
-func ZzC03AcctsL3() { zzC03b(KeyScopeBIP0084, 3, 10, false, nil) }
+func ZzC03AcctsL2()   { zzC03b(KeyScopeBIP0084, 2, 10, false, nil) }
+func ZzC03AcctsL3()   { zzC03b(KeyScopeBIP0084, 3, 10, false, nil) }
 func ZzC03Accts86L3() { zzC03b(KeyScopeBIP0086, 3, 10, false, nil) }
 func ZzC03Accts44L3() { zzC03b(KeyScopeBIP0044, 3, 10, false, nil) }
 func ZzC03ImportedL2() {
